@@ -35,12 +35,7 @@ def replay_sart(rec, ctx):
             x, conv = invert_sart(W, b, initial_guess=guess, max_iterations=maxit, relaxation=relax)
         else:
             name = "invert_constrained_sart"
-            L = np.zeros((n, n))
-            for i in range(n):
-                nb = [c for c in (i - 1, i + 1) if 0 <= c < n]
-                L[i, i] = len(nb)
-                for c in nb:
-                    L[i, c] = -1.0
+            L = np.array([[fr(p) for p in row] for row in rec["L"]])
             x, conv = invert_constrained_sart(W, L, b, initial_guess=guess, max_iterations=maxit, relaxation=relax, beta_laplace=beta)
         want_x = [fr(p) for p in rec["x"]]
         want_c = [fr(p) for p in rec["conv"]]
@@ -48,7 +43,7 @@ def replay_sart(rec, ctx):
         def bad(what, detail):
             zero_col = bool((W.sum(axis=0) == 0).any())
             viol.append({"sig": f"{name}:{what}" + (":zero-column" if zero_col else ""),
-                         "detail": f"{detail} | W={rec['W']} b={rec['b']} x0={list(x0)} relax={relax} beta={beta} guess={vname}"})
+                         "detail": f"{detail} | W={rec['W']} b={rec['b']} x0={list(x0)} relax={relax} beta={beta} L={rec.get('lap')} guess={vname}"})
         if len(conv) != rec["iters"]:
             bad("stopping-rule-differs", f"{len(conv)} iterations, spec {rec['iters']} (conv {list(conv)} vs {want_c})")
             continue
@@ -106,6 +101,7 @@ CONSTANTS
   MaxIter = {maxiter}
   Betas = {{0, 1}}
   Relax = {{1, 2}}
+  LapKinds = {{"chain", "rownorm"}}
 INVARIANT NonNegative
 INVARIANT ExactSolutionIsFixedPoint
 INVARIANT UnseenVoxelKeepsValue
@@ -141,7 +137,7 @@ def run(v):
         for r, vs in zip(finals, out):
             for x in vs:
                 v.violation(x["sig"], x["detail"], dict(r, maxiter=maxiter, sart=True))
-        v.add_cases(len(finals), keys=[json.dumps([r["W"], r["b"], r["x0"], r["relax"], r["beta"]]) for r in finals])
+        v.add_cases(len(finals), keys=[json.dumps([r["W"], r["b"], r["x0"], r["relax"], r["beta"], r["lap"]]) for r in finals])
         v.sample(finals[len(finals) // 3])
     for m in ([2] if v.tier == "quick" else [1, 2, 3]):
         res = core.run_tlc("LeastSquares", CFG_LSQ.format(m=m), workers=1, seed=v.seed, tag=f"C11-lsq{m}", timeout=3000)
